@@ -133,6 +133,7 @@ func forwardCheckPoint(ctx context.Context, nodeKey string) context.Context {
 		return ctx
 	}
 	if subCP, ok := cp.SubGraphs[nodeKey]; ok {
+		delete(cp.SubGraphs, nodeKey) // a sub-graph checkpoint is consumed by the first resumed execution only
 		return context.WithValue(ctx, checkPointKey{}, subCP)
 	}
 	return context.WithValue(ctx, checkPointKey{}, (*checkpoint)(nil))
